@@ -316,6 +316,22 @@ class C02(layfamily.Family):
     def project(self, pages, info):
         return [[b[1] for b in p if b[0] == "data"] for p in pages]
 
+    def cross_prepare(self, spec, info):
+        """documents of the whole-encoder class (harness/crosscorr.py): the display texts of the displayed columns"""
+        if spec.get("kind", "table") != "table" or not isinstance(spec.get("df"), dict):
+            return None
+        info = dict(info)
+        cols = spec["df"]["cols"]
+        di = [cols.index(c) for c in info["displayed"]]
+        info["expect"] = [[docgen.display(r[c]) for c in di] for r in spec["df"]["rows"]]
+        return info
+
+    def cross_extra(self, spec, info, ob):
+        """the text of every data cell, by row index (group_by blanks and converted texts included: they are the same
+        on the model's text)"""
+        return [[b[1], [rtfread.para_text(c) for c in raw.cells]]
+                for blocks, raws in zip(ob["pages"], ob["_raw"]) for b, raw in zip(blocks, raws) if b[0] == "data"]
+
     def nontrivial(self, spec, info, ob):
         if len(ob["pages"]) >= 2:
             return [info["strategy"], info.get("nrow"), str(self.project(ob["pages"], info))[:200]]
